@@ -711,6 +711,7 @@ theorem negCount_false (count : Option Int) :
 theorem findall_unfold (data pat : Bits) (start stop : Option Int) (count : Option Int) (ba : Option Bool) (optBA : Bool)
     (hc : ∀ c, count = some c → 0 ≤ c) :
     findall data pat start stop count ba optBA =
+      if pat.length = 0 then .error .value else
       match validateSlice data.length start stop with
       | .error e => .error e
       | .ok (s, e) => .ok (findallCount (countNat count) (findallMsb0 data pat s e (defaultBA ba optBA)) 0) := by
@@ -718,11 +719,15 @@ theorem findall_unfold (data pat : Bits) (start stop : Option Int) (count : Opti
   cases count with
   | none =>
     simp [countNat]
-    cases validateSlice data.length start stop <;> rfl
+    split
+    · rfl
+    · cases validateSlice data.length start stop <;> rfl
   | some c =>
     have := hc c rfl
     have h : ¬ c < 0 := by omega
     simp [h, countNat]
-    cases validateSlice data.length start stop <;> rfl
+    split
+    · rfl
+    · cases validateSlice data.length start stop <;> rfl
 
 end BM.C07
